@@ -131,7 +131,7 @@ class Interp(HeapMixin, OpsMixin, StmtMixin, CallMixin):
         if k == "opt":
             b = z3.Bool(name + "#none")
             run.inputs[name + "#none"] = b
-            if run.decide(b, f"{name} is None"):
+            if run.decide(b, f"{name} is None", persist=True):
                 return NONE
             return self.fresh(ty[1], name)
         if k == "union":
